@@ -25,7 +25,7 @@ MANIFEST = dict(
 def gen_history(r, nops):
     fl = r.choice([0, 0, 0, G.VNUM, G.VNUM, G.COMPOUND, G.REAL])
     ops = ["open %d 1 0" % r.randrange(2), "db 1 %d" % fl]
-    pool = G.make_pool(r, fl, r.choice([20, 70, 150, 400]))
+    pool = G.make_pool(r, fl, r.choice([20, 45, 70, 70, 150, 400]))
     for _ in range(r.choice([0, 30, 200, 600])):
         k, c = r.choice(pool)
         ops.append("put 1 %s %d %s 0 %d" % (G.H(k), c, G.H(G.gen_value(r, big=False)), G.gen_level(r)))
@@ -129,7 +129,7 @@ def run(ctx):
     h = C.build_harness(impl, *c01.HARNESS[:2], exclude=c01.HARNESS[2])
     drv = C.drv_path() if drv_ok else None
     if ctx.tier == "quick":
-        explore(ctx, h, drv, 80, 300, "main")
+        explore(ctx, h, drv, 200, 350, "main")
     else:
         explore(ctx, h, drv, 1200, 400, "main")
         explore(ctx, h, drv, 20, 8000, "long")
